@@ -14,7 +14,7 @@ import (
 	"pgregory.net/rapid"
 )
 
-// Dom describes the value domain of a target (what "known" generations / library versions are).
+// Dom describes the value domain of a target.
 type Dom struct {
 	Gens []uint32 // phantom generations the component under test has subnets for
 }
@@ -23,18 +23,41 @@ func chance(rt *rapid.T, label string, num, den int) bool {
 	return rapid.IntRange(0, den-1).Draw(rt, label) < num
 }
 
+// G is the state of one structured draw. In the "tame" mode (two thirds of the cases) every field is
+// valid with high probability and only a few are hostile, so that messages get through all the
+// checks in front of the deep logic; in the "wild" mode every field is hostile with probability
+// ~1/3.
+type G struct {
+	rt   *rapid.T
+	d    Dom
+	wild bool
+}
+
+// NewG draws the mode.
+func NewG(rt *rapid.T, d Dom) *G {
+	return &G{rt: rt, d: d, wild: rapid.IntRange(0, 3).Draw(rt, "wild") == 3}
+}
+
+// odd says whether the next field is to be hostile (absent / invalid / boundary).
+func (g *G) odd(label string) bool {
+	if g.wild {
+		return chance(g.rt, label+"_odd", 1, 4)
+	}
+	return chance(g.rt, label+"_odd", 1, 24)
+}
+
 // Bytes draws a byte string whose length comes from lens (hostile lengths) and whose content is one
 // of: zeros, 0xff, counting pattern, drawn bytes.
 func Bytes(rt *rapid.T, label string, lens []int) []byte {
 	n := rapid.SampledFrom(lens).Draw(rt, label+"_len")
 	out := make([]byte, n)
 	switch rapid.IntRange(0, 3).Draw(rt, label+"_fill") {
-	case 0:
-	case 1:
+	case 3:
+	case 2:
 		for i := range out {
 			out[i] = 0xff
 		}
-	case 2:
+	case 1:
 		seed := rapid.Byte().Draw(rt, label+"_seed")
 		for i := range out {
 			out[i] = seed + byte(i*7)
@@ -55,93 +78,117 @@ func Bytes(rt *rapid.T, label string, lens []int) []byte {
 }
 
 var (
-	secretLens = []int{0, 1, 7, 8, 15, 16, 31, 32, 32, 32, 32, 33, 64}
-	addrLens   = []int{0, 1, 3, 4, 4, 4, 5, 15, 16, 16, 16, 17, 32}
-	u32Edge    = []uint32{0, 1, 2, 3, 4, 5, 6, 22, 443, 1023, 1024, 65535, 65536, 1 << 31, ^uint32(0)}
+	secretLens = []int{32, 0, 1, 7, 8, 15, 16, 31, 33, 64}
+	addrLens   = []int{4, 16, 0, 1, 3, 5, 15, 17, 32}
+	u32Edge    = []uint32{443, 0, 1, 2, 3, 4, 5, 6, 22, 1023, 1024, 65535, 65536, 1 << 31, ^uint32(0)}
+	i32Edge    = []int32{0, 1, 2, 3, 4, 5, 6, 7, 8, 9, -1, -2, 10, 11, 100, 1<<31 - 1, -1 << 31}
 )
 
-// Addr draws an address-like byte string: valid v4 (4 bytes), v4-in-v6, v6, zeros, wrong lengths.
-func Addr(rt *rapid.T, label string) []byte {
-	switch rapid.IntRange(0, 7).Draw(rt, label+"_kind") {
+// goodAddr draws a well-formed client address (4-byte v4, 16-byte v4-mapped, 16-byte v6).
+func goodAddr(rt *rapid.T, label string) []byte {
+	b := rapid.Byte().Draw(rt, label+"_b")
+	switch rapid.IntRange(0, 2).Draw(rt, label+"_fam") {
 	case 0:
-		return []byte{198, 51, 100, rapid.Byte().Draw(rt, label+"_b")}
+		return []byte{198, 51, 100, b}
 	case 1:
-		return []byte{0, 0, 0, 0, 0, 0, 0, 0, 0, 0, 0xff, 0xff, 203, 0, 113, rapid.Byte().Draw(rt, label+"_b")}
-	case 2:
-		return []byte{0x20, 0x01, 0x0d, 0xb8, 0, 0, 0, 0, 0, 0, 0, 0, 0, 0, 0, rapid.Byte().Draw(rt, label+"_b")}
-	case 3:
+		return []byte{0, 0, 0, 0, 0, 0, 0, 0, 0, 0, 0xff, 0xff, 203, 0, 113, b}
+	}
+	return []byte{0x20, 0x01, 0x0d, 0xb8, 0, 0, 0, 0, 0, 0, 0, 0, 0, 0, 0, b}
+}
+
+// badAddr draws a hostile address: zeros, loopback, wrong lengths.
+func badAddr(rt *rapid.T, label string) []byte {
+	switch rapid.IntRange(0, 3).Draw(rt, label+"_bad") {
+	case 0:
 		return make([]byte, 16)
-	case 4:
+	case 1:
 		return make([]byte, 4)
-	case 5:
+	case 2:
 		return []byte{127, 0, 0, 1}
-	default:
-		return Bytes(rt, label, addrLens)
 	}
+	return Bytes(rt, label, addrLens[2:])
 }
 
-func optU32(rt *rapid.T, label string, vals []uint32) *uint32 {
-	if chance(rt, label+"_absent", 1, 6) {
+// Addr draws an address-like byte string.
+func (g *G) Addr(label string) []byte {
+	if g.odd(label) {
+		return badAddr(g.rt, label)
+	}
+	return goodAddr(g.rt, label)
+}
+
+func (g *G) u32(label string, good []uint32, bad []uint32) *uint32 {
+	if g.odd(label) {
+		switch rapid.IntRange(0, 2).Draw(g.rt, label+"_how") {
+		case 0:
+			return nil
+		case 1:
+			return proto.Uint32(rapid.Uint32().Draw(g.rt, label+"_any"))
+		}
+		return proto.Uint32(rapid.SampledFrom(bad).Draw(g.rt, label+"_bad"))
+	}
+	return proto.Uint32(rapid.SampledFrom(good).Draw(g.rt, label))
+}
+
+// flag draws an optional bool: true with probability pTrue/10, absent when hostile.
+func (g *G) flag(label string, pTrue int) *bool {
+	if g.odd(label) {
 		return nil
 	}
-	if chance(rt, label+"_any", 1, 8) {
-		return proto.Uint32(rapid.Uint32().Draw(rt, label+"_v"))
-	}
-	return proto.Uint32(rapid.SampledFrom(vals).Draw(rt, label))
+	return proto.Bool(rapid.IntRange(0, 9).Draw(g.rt, label) < pTrue)
 }
 
-func optBool(rt *rapid.T, label string, pTrue, pAbsent int) *bool {
-	k := rapid.IntRange(0, 9).Draw(rt, label)
-	switch {
-	case k < pAbsent:
-		return nil
-	case k < pAbsent+pTrue:
-		return proto.Bool(true)
-	}
-	return proto.Bool(false)
-}
-
-// GenAddrMsg draws a pb.Addr (DTLS source address): absent, or IP absent / of any length and port
+// AddrMsg draws a pb.Addr (DTLS source address): absent, or IP absent / of any length and port
 // absent / in or out of the 16-bit range.
-func GenAddrMsg(rt *rapid.T, label string) *pb.Addr {
-	if chance(rt, label+"_absent", 1, 4) {
+func (g *G) AddrMsg(label string, v6 bool) *pb.Addr {
+	if g.odd(label + "_absent") {
 		return nil
 	}
 	a := &pb.Addr{}
-	if !chance(rt, label+"_noip", 1, 5) {
-		a.IP = Addr(rt, label+"_ip")
+	if g.odd(label + "_ip") {
+		if rapid.Bool().Draw(g.rt, label+"_noip") {
+			a.IP = nil
+		} else {
+			a.IP = badAddr(g.rt, label+"_ip")
+		}
+	} else if v6 {
+		a.IP = []byte{0x20, 0x01, 0x0d, 0xb8, 0, 0, 0, 0, 0, 0, 0, 0, 0, 0, 0, rapid.Byte().Draw(g.rt, label+"_b")}
+	} else {
+		a.IP = []byte{198, 51, 100, rapid.Byte().Draw(g.rt, label+"_b")}
 	}
-	a.Port = optU32(rt, label+"_port", []uint32{0, 1, 1024, 41245, 65535, 65536, 1 << 31, ^uint32(0)})
+	a.Port = g.u32(label+"_port", []uint32{1024, 41245, 50000, 65535}, []uint32{0, 65536, 1 << 31, ^uint32(0)})
 	return a
 }
 
-var i32Edge = []int32{-2, -1, 0, 1, 2, 3, 4, 5, 6, 7, 8, 9, 10, 11, 100, 1<<31 - 1, -1 << 31}
-
-// GenParamsMsg draws a transport parameter message of the named kind ("generic", "prefix", "dtls").
-func GenParamsMsg(rt *rapid.T, label, kind string) proto.Message {
+// ParamsMsg draws a transport parameter message of the named kind ("generic", "prefix", "dtls").
+func (g *G) ParamsMsg(label, kind string) proto.Message {
 	switch kind {
 	case "prefix":
 		m := &pb.PrefixTransportParams{}
-		if !chance(rt, label+"_noid", 1, 6) {
-			m.PrefixId = proto.Int32(rapid.SampledFrom(i32Edge).Draw(rt, label+"_id"))
+		if g.odd(label + "_id") {
+			if !rapid.Bool().Draw(g.rt, label+"_noid") {
+				m.PrefixId = proto.Int32(rapid.SampledFrom(i32Edge[10:]).Draw(g.rt, label+"_badid"))
+			}
+		} else {
+			m.PrefixId = proto.Int32(rapid.SampledFrom(i32Edge[:10]).Draw(g.rt, label+"_id"))
 		}
-		if chance(rt, label+"_hasprefix", 1, 4) {
-			m.Prefix = Bytes(rt, label+"_prefix", []int{0, 1, 5, 16, 64, 300})
+		if chance(g.rt, label+"_hasprefix", 1, 4) {
+			m.Prefix = Bytes(g.rt, label+"_prefix", []int{0, 1, 5, 16, 64, 300})
 		}
-		if chance(rt, label+"_hasflush", 1, 3) {
-			m.CustomFlushPolicy = proto.Int32(rapid.SampledFrom(i32Edge).Draw(rt, label+"_flush"))
+		if chance(g.rt, label+"_hasflush", 1, 3) {
+			m.CustomFlushPolicy = proto.Int32(rapid.SampledFrom(i32Edge).Draw(g.rt, label+"_flush"))
 		}
-		m.RandomizeDstPort = optBool(rt, label+"_rand", 4, 2)
+		m.RandomizeDstPort = g.flag(label+"_rand", 5)
 		return m
 	case "dtls":
 		m := &pb.DTLSTransportParams{}
-		m.SrcAddr4 = GenAddrMsg(rt, label+"_a4")
-		m.SrcAddr6 = GenAddrMsg(rt, label+"_a6")
-		m.RandomizeDstPort = optBool(rt, label+"_rand", 4, 2)
-		m.Unordered = optBool(rt, label+"_unord", 3, 4)
+		m.SrcAddr4 = g.AddrMsg(label+"_a4", false)
+		m.SrcAddr6 = g.AddrMsg(label+"_a6", true)
+		m.RandomizeDstPort = g.flag(label+"_rand", 5)
+		m.Unordered = g.flag(label+"_unord", 3)
 		return m
 	default:
-		return &pb.GenericTransportParams{RandomizeDstPort: optBool(rt, label+"_rand", 4, 2)}
+		return &pb.GenericTransportParams{RandomizeDstPort: g.flag(label+"_rand", 5)}
 	}
 }
 
@@ -157,46 +204,53 @@ func typeURL(kind string) string {
 	return "type.googleapis.com/proto.GenericTransportParams"
 }
 
-// GenAny draws a transport_params Any. `want` is the kind the transport expects ("" = none in
-// particular): mostly the matching message, sometimes another kind's (mismatched parameter type);
-// the type URL is full / empty (as the DNS registrar sends it) / legacy "tapdance." / another
-// message's / garbage; the value is the marshalled message, possibly truncated, extended or replaced.
-func GenAny(rt *rapid.T, label, want string) *anypb.Any {
-	if chance(rt, label+"_absent", 1, 6) {
+// Any draws a transport_params Any. `want` is the kind the transport expects ("" = none in
+// particular): mostly the matching message with a type URL the code accepts (full, empty as the DNS
+// registrar sends it, legacy "tapdance."); when hostile, another kind's message (mismatched
+// parameter type), another message's / a garbage URL, or a truncated / corrupted / missing value.
+func (g *G) Any(label, want string) *anypb.Any {
+	if g.odd(label + "_absent") {
 		return nil
 	}
 	kind := want
-	if kind == "" || chance(rt, label+"_mismatch", 1, 5) {
-		kind = rapid.SampledFrom(paramKinds).Draw(rt, label+"_kind")
+	if kind == "" || g.odd(label+"_mismatch") {
+		kind = rapid.SampledFrom(paramKinds).Draw(g.rt, label+"_kind")
 	}
-	val, err := proto.Marshal(GenParamsMsg(rt, label, kind))
+	val, err := proto.Marshal(g.ParamsMsg(label, kind))
 	if err != nil {
 		val = nil
 	}
 	a := &anypb.Any{Value: val}
-	switch rapid.IntRange(0, 11).Draw(rt, label+"_url") {
-	case 0, 1, 2, 3, 4:
-		a.TypeUrl = typeURL(kind)
-	case 5, 6:
-		a.TypeUrl = ""
-	case 7:
-		a.TypeUrl = strings.Replace(typeURL(kind), "proto.", "tapdance.", 1)
-	case 8:
-		a.TypeUrl = typeURL(rapid.SampledFrom(paramKinds).Draw(rt, label+"_otherurl"))
-	case 9:
-		a.TypeUrl = "type.googleapis.com/proto.ClientToStation"
-	case 10:
-		a.TypeUrl = rapid.SampledFrom([]string{"/", "proto.", "tapdance.tapdance.", "type.googleapis.com/", "\xff\xfe", "type.googleapis.com/google.protobuf.Any"}).Draw(rt, label+"_badurl")
-	default:
-		a.TypeUrl = typeURL(want)
+	if g.odd(label + "_url") {
+		switch rapid.IntRange(0, 3).Draw(g.rt, label+"_badurl_kind") {
+		case 0:
+			a.TypeUrl = typeURL(rapid.SampledFrom(paramKinds).Draw(g.rt, label+"_otherurl"))
+		case 1:
+			a.TypeUrl = "type.googleapis.com/proto.ClientToStation"
+		case 2:
+			a.TypeUrl = typeURL(want)
+		default:
+			a.TypeUrl = rapid.SampledFrom([]string{"/", "proto.", "tapdance.tapdance.", "type.googleapis.com/", "\xff\xfe", "type.googleapis.com/google.protobuf.Any"}).Draw(g.rt, label+"_badurl")
+		}
+	} else {
+		switch rapid.IntRange(0, 3).Draw(g.rt, label+"_url") {
+		case 0, 1:
+			a.TypeUrl = typeURL(kind)
+		case 2:
+			a.TypeUrl = ""
+		default:
+			a.TypeUrl = strings.Replace(typeURL(kind), "proto.", "tapdance.", 1)
+		}
 	}
-	switch rapid.IntRange(0, 9).Draw(rt, label+"_val") {
-	case 0:
-		a.Value = Mutate(rt, label+"_mut", a.Value)
-	case 1:
-		a.Value = nil
-	case 2:
-		a.Value = Bytes(rt, label+"_garbage", []int{1, 2, 9, 40})
+	if g.odd(label + "_val") {
+		switch rapid.IntRange(0, 2).Draw(g.rt, label+"_badval") {
+		case 0:
+			a.Value = Mutate(g.rt, label+"_mut", a.Value)
+		case 1:
+			a.Value = nil
+		default:
+			a.Value = Bytes(g.rt, label+"_garbage", []int{1, 2, 9, 40})
+		}
 	}
 	return a
 }
@@ -214,133 +268,165 @@ func KindFor(tt int32) string {
 	return ""
 }
 
-var coverts = []string{"192.0.2.1:443", "192.0.2.1:443", "[2001:db8::1]:443", ":443", "192.0.2.1", "192.0.2.1:", "a:b:c", "localhost:80",
-	"verif-c11.invalid:443", "192.0.2.1:99999", "192.0.2.1:-1", "[::1]:1", "127.0.0.1:1", "\xff\xfe:1", "[fe80::1%eth0]:443", "", " 192.0.2.1:443",
-	"0.0.0.0:0", "[::ffff:10.0.0.1]:22", strings.Repeat("a", 300) + ":443"}
+var (
+	goodCoverts = []string{"192.0.2.1:443", "192.0.2.77:80", "[2001:db8::1]:443", "127.0.0.1:1"}
+	badCoverts  = []string{":443", "192.0.2.1", "192.0.2.1:", "a:b:c", "localhost:80", "verif-c11.invalid:443", "192.0.2.1:99999", "192.0.2.1:-1", "[::1]:1",
+		"\xff\xfe:1", "[fe80::1%eth0]:443", "", " 192.0.2.1:443", "0.0.0.0:0", "[::ffff:10.0.0.1]:22", strings.Repeat("a", 300) + ":443"}
+	goodTransports = []int32{1, 2, 3, 4}
+	badTransports  = []int32{0, 5, 6, 9, 99, 100, -1, 1<<31 - 1}
+)
 
-var transportsEdge = []int32{0, 1, 1, 1, 2, 2, 3, 3, 4, 4, 4, 5, 6, 9, 99, 100, -1, 1<<31 - 1}
-
-// GenC2S draws a ClientToStation, field by field.
-func GenC2S(rt *rapid.T, label string, d Dom) *pb.ClientToStation {
+// C2S draws a ClientToStation, field by field.
+func (g *G) C2S(label string) *pb.ClientToStation {
+	rt := g.rt
 	c := &pb.ClientToStation{}
-	gens := append([]uint32{0, 1, ^uint32(0)}, d.Gens...)
-	gens = append(gens, d.Gens...)
-	gens = append(gens, d.Gens...)
-	c.DecoyListGeneration = optU32(rt, label+"_gen", gens)
-	c.ClientLibVersion = optU32(rt, label+"_libver", []uint32{0, 1, 2, 3, 3, 4, 4, 4, 5, 6, 100, ^uint32(0)})
-	c.ProtocolVersion = optU32(rt, label+"_proto", u32Edge)
-	if chance(rt, label+"_hastr", 1, 8) {
+	gens := g.d.Gens
+	if len(gens) == 0 {
+		gens = []uint32{0}
+	}
+	c.DecoyListGeneration = g.u32(label+"_gen", gens, []uint32{0, 1, 2, 956, ^uint32(0)})
+	c.ClientLibVersion = g.u32(label+"_libver", []uint32{4, 4, 3, 3, 2, 1, 0, 5}, []uint32{6, 100, 1 << 31, ^uint32(0)})
+	if chance(rt, label+"_hasproto", 1, 6) {
+		c.ProtocolVersion = proto.Uint32(rapid.SampledFrom(u32Edge).Draw(rt, label+"_proto"))
+	}
+	if chance(rt, label+"_hastr", 1, 10) {
 		c.StateTransition = pb.C2S_Transition(rapid.SampledFrom([]int32{0, 1, 2, 3, 4, 11, 99, -1}).Draw(rt, label+"_tr")).Enum()
 	}
-	if chance(rt, label+"_hassync", 1, 8) {
+	if chance(rt, label+"_hassync", 1, 10) {
 		c.UploadSync = proto.Uint64(rapid.Uint64().Draw(rt, label+"_sync"))
 	}
-	c.DisableRegistrarOverrides = optBool(rt, label+"_dis", 3, 4)
-	if chance(rt, label+"_hasfailed", 1, 8) {
+	if chance(rt, label+"_hasdis", 1, 2) {
+		c.DisableRegistrarOverrides = proto.Bool(rapid.Bool().Draw(rt, label+"_dis"))
+	}
+	if chance(rt, label+"_hasfailed", 1, 10) {
 		c.FailedDecoys = rapid.SliceOfN(rapid.SampledFrom([]string{"", "a.example", "\xff", strings.Repeat("x", 70)}), 0, 4).Draw(rt, label+"_failed")
 	}
-	if chance(rt, label+"_hasstats", 1, 8) {
-		c.Stats = &pb.SessionStats{FailedDecoysAmount: optU32(rt, label+"_st1", u32Edge), TotalTimeToConnect: optU32(rt, label+"_st2", u32Edge)}
+	if chance(rt, label+"_hasstats", 1, 10) {
+		c.Stats = &pb.SessionStats{FailedDecoysAmount: proto.Uint32(rapid.SampledFrom(u32Edge).Draw(rt, label+"_st1"))}
 	}
 	var tt int32
-	hasTT := !chance(rt, label+"_nott", 1, 8)
-	if hasTT {
-		tt = rapid.SampledFrom(transportsEdge).Draw(rt, label+"_tt")
+	if g.odd(label + "_tt") {
+		if !rapid.Bool().Draw(rt, label+"_nott") {
+			tt = rapid.SampledFrom(badTransports).Draw(rt, label+"_badtt")
+			c.Transport = pb.TransportType(tt).Enum()
+		}
+	} else {
+		tt = rapid.SampledFrom(goodTransports).Draw(rt, label+"_tt")
 		c.Transport = pb.TransportType(tt).Enum()
 	}
-	c.TransportParams = GenAny(rt, label+"_params", KindFor(tt))
-	if !chance(rt, label+"_nocovert", 1, 10) {
-		c.CovertAddress = proto.String(rapid.SampledFrom(coverts).Draw(rt, label+"_covert"))
+	c.TransportParams = g.Any(label+"_params", KindFor(tt))
+	if g.odd(label + "_covert") {
+		if !rapid.Bool().Draw(rt, label+"_nocovert") {
+			c.CovertAddress = proto.String(rapid.SampledFrom(badCoverts).Draw(rt, label+"_badcovert"))
+		}
+	} else {
+		c.CovertAddress = proto.String(rapid.SampledFrom(goodCoverts).Draw(rt, label+"_covert"))
 	}
 	if chance(rt, label+"_hasmask", 1, 6) {
 		c.MaskedDecoyServerName = proto.String(rapid.SampledFrom([]string{"", "example.com", "\xff", strings.Repeat("m", 260)}).Draw(rt, label+"_mask"))
 	}
-	c.V4Support = optBool(rt, label+"_v4", 6, 2)
-	c.V6Support = optBool(rt, label+"_v6", 5, 2)
-	if !chance(rt, label+"_noflags", 1, 4) {
-		c.Flags = &pb.RegistrationFlags{
-			UploadOnly:  optBool(rt, label+"_f1", 2, 5),
-			DarkDecoy:   optBool(rt, label+"_f2", 2, 5),
-			ProxyHeader: optBool(rt, label+"_f3", 3, 4),
-			Use_TIL:     optBool(rt, label+"_f4", 2, 5),
-			Prescanned:  optBool(rt, label+"_f5", 3, 4),
+	c.V4Support = g.flag(label+"_v4", 8)
+	c.V6Support = g.flag(label+"_v6", 6)
+	if !g.odd(label + "_flags") {
+		c.Flags = &pb.RegistrationFlags{}
+		if chance(rt, label+"_f1", 1, 3) {
+			c.Flags.UploadOnly = proto.Bool(rapid.Bool().Draw(rt, label+"_f1v"))
+		}
+		if chance(rt, label+"_f3", 1, 3) {
+			c.Flags.ProxyHeader = proto.Bool(rapid.Bool().Draw(rt, label+"_f3v"))
+		}
+		if chance(rt, label+"_f4", 1, 3) {
+			c.Flags.Use_TIL = proto.Bool(rapid.Bool().Draw(rt, label+"_f4v"))
+		}
+		if chance(rt, label+"_f5", 1, 3) {
+			c.Flags.Prescanned = proto.Bool(rapid.Bool().Draw(rt, label+"_f5v"))
 		}
 	}
-	if chance(rt, label+"_haspad", 1, 8) {
+	if chance(rt, label+"_haspad", 1, 10) {
 		c.Padding = Bytes(rt, label+"_pad", []int{0, 1, 100, 1000})
 	}
 	return c
 }
 
-// GenRegResp draws a RegistrationResponse (the registrar-only part of a C2SWrapper, which a hostile
+// RegResp draws a RegistrationResponse (the registrar-only part of a C2SWrapper, which a hostile
 // client or a registrar may fill with anything).
-func GenRegResp(rt *rapid.T, label string) *pb.RegistrationResponse {
+func (g *G) RegResp(label string) *pb.RegistrationResponse {
+	rt := g.rt
 	r := &pb.RegistrationResponse{}
-	if !chance(rt, label+"_no4", 1, 3) {
-		switch rapid.IntRange(0, 3).Draw(rt, label+"_v4kind") {
-		case 0:
-			r.Ipv4Addr = proto.Uint32(0)
-		case 1:
+	if chance(rt, label+"_has4", 2, 3) {
+		if g.odd(label + "_v4") {
+			r.Ipv4Addr = proto.Uint32(rapid.SampledFrom([]uint32{0, 1, 0x7f000001, ^uint32(0)}).Draw(rt, label+"_badv4"))
+		} else {
 			r.Ipv4Addr = proto.Uint32(binary.BigEndian.Uint32([]byte{192, 122, 190, rapid.Byte().Draw(rt, label+"_v4b")}))
-		default:
-			r.Ipv4Addr = proto.Uint32(rapid.Uint32().Draw(rt, label+"_v4"))
 		}
 	}
-	if !chance(rt, label+"_no6", 1, 3) {
-		switch rapid.IntRange(0, 2).Draw(rt, label+"_v6kind") {
-		case 0:
+	if chance(rt, label+"_has6", 2, 3) {
+		if g.odd(label + "_v6") {
+			r.Ipv6Addr = Bytes(rt, label+"_badv6", addrLens)
+		} else {
 			r.Ipv6Addr = []byte{0x20, 0x01, 0x48, 0xa8, 0x68, 0x7f, 0, 1, 0, 0, 0, 0, 0, 0, 0, rapid.Byte().Draw(rt, label+"_v6b")}
-		default:
-			r.Ipv6Addr = Bytes(rt, label+"_v6", addrLens)
 		}
 	}
-	r.DstPort = optU32(rt, label+"_port", u32Edge)
-	if chance(rt, label+"_hasrand", 1, 6) {
+	if chance(rt, label+"_hasport", 2, 3) {
+		r.DstPort = g.u32(label+"_port", []uint32{443, 80, 1024, 8443, 65535}, []uint32{0, 65536, 1 << 31, ^uint32(0)})
+	}
+	if chance(rt, label+"_hasrand", 1, 8) {
 		r.ServerRandom = Bytes(rt, label+"_srvrand", []int{0, 1, 32})
 	}
-	if chance(rt, label+"_haserr", 1, 6) {
+	if chance(rt, label+"_haserr", 1, 8) {
 		r.Error = proto.String(rapid.SampledFrom([]string{"", "err", "\xff"}).Draw(rt, label+"_err"))
 	}
-	if chance(rt, label+"_hascc", 1, 6) {
-		r.ClientConf = &pb.ClientConf{Generation: optU32(rt, label+"_ccgen", u32Edge)}
+	if chance(rt, label+"_hascc", 1, 8) {
+		r.ClientConf = &pb.ClientConf{Generation: proto.Uint32(rapid.SampledFrom(u32Edge).Draw(rt, label+"_ccgen"))}
 	}
 	if chance(rt, label+"_hasparams", 1, 2) {
-		r.TransportParams = GenAny(rt, label+"_params", rapid.SampledFrom([]string{"", "generic", "prefix", "dtls"}).Draw(rt, label+"_pkind"))
+		r.TransportParams = g.Any(label+"_params", rapid.SampledFrom([]string{"prefix", "generic", "dtls", ""}).Draw(rt, label+"_pkind"))
 	}
-	r.PhantomsSupportPortRand = optBool(rt, label+"_psr", 4, 3)
+	if chance(rt, label+"_haspsr", 1, 2) {
+		r.PhantomsSupportPortRand = proto.Bool(rapid.Bool().Draw(rt, label+"_psr"))
+	}
 	return r
 }
 
-// GenWrapper draws a C2SWrapper, field by field (every sub-message may be absent).
-func GenWrapper(rt *rapid.T, d Dom) *pb.C2SWrapper {
+// Wrapper draws a C2SWrapper, field by field (every sub-message may be absent).
+func (g *G) Wrapper() *pb.C2SWrapper {
+	rt := g.rt
 	w := &pb.C2SWrapper{}
-	if !chance(rt, "nosecret", 1, 8) {
-		w.SharedSecret = Bytes(rt, "secret", secretLens)
+	if g.odd("secret") {
+		if !rapid.Bool().Draw(rt, "nosecret") {
+			w.SharedSecret = Bytes(rt, "badsecret", secretLens[1:])
+		}
+	} else {
+		w.SharedSecret = Bytes(rt, "secret", secretLens[:1])
 	}
-	if !chance(rt, "nopayload", 1, 6) {
-		w.RegistrationPayload = GenC2S(rt, "c2s", d)
+	if !g.odd("payload") {
+		w.RegistrationPayload = g.C2S("c2s")
 	}
-	if !chance(rt, "nosource", 1, 3) {
-		w.RegistrationSource = pb.RegistrationSource(rapid.SampledFrom([]int32{0, 1, 1, 2, 2, 3, 4, 4, 5, 6, 6, 7, 99, -1}).Draw(rt, "source")).Enum()
+	if chance(rt, "hassource", 2, 3) {
+		if g.odd("source") {
+			w.RegistrationSource = pb.RegistrationSource(rapid.SampledFrom([]int32{7, 99, -1, 1 << 30}).Draw(rt, "badsource")).Enum()
+		} else {
+			w.RegistrationSource = pb.RegistrationSource(rapid.IntRange(0, 6).Draw(rt, "source")).Enum()
+		}
 	}
-	if !chance(rt, "noregaddr", 1, 3) {
-		w.RegistrationAddress = Addr(rt, "regaddr")
+	if chance(rt, "hasregaddr", 3, 4) {
+		w.RegistrationAddress = g.Addr("regaddr")
 	}
 	if chance(rt, "hasdecoyaddr", 1, 3) {
-		w.DecoyAddress = Addr(rt, "decoyaddr")
+		w.DecoyAddress = g.Addr("decoyaddr")
 	}
 	if chance(rt, "hasresp", 1, 2) {
-		w.RegistrationResponse = GenRegResp(rt, "rr")
+		w.RegistrationResponse = g.RegResp("rr")
 	}
-	if chance(rt, "hasrrbytes", 1, 6) {
+	if chance(rt, "hasrrbytes", 1, 8) {
 		w.RegRespBytes = Bytes(rt, "rrbytes", []int{0, 1, 20})
-		w.RegRespSignature = Bytes(rt, "rrsig", []int{0, 1, 63, 64, 65})
+		w.RegRespSignature = Bytes(rt, "rrsig", []int{64, 0, 1, 63, 65})
 	}
 	return w
 }
 
-// Mutate applies 0-3 byte-level edits (bit flip, hostile byte, truncate, delete, duplicate, insert an
-// over-long varint / length prefix, append garbage).
+// Mutate applies 1-3 byte-level edits (bit flip, hostile byte, truncate, delete, duplicate, insert an
+// over-long varint / length prefix / group marker, append garbage).
 func Mutate(rt *rapid.T, label string, b []byte) []byte {
 	out := append([]byte(nil), b...)
 	n := rapid.IntRange(1, 3).Draw(rt, label+"_n")
@@ -395,20 +481,16 @@ func Mutate(rt *rapid.T, label string, b []byte) []byte {
 // GenWrapperBytes draws the wire form of a registration message: mostly a structured C2SWrapper
 // (kind "structured"), sometimes with byte-level edits ("mutated") and rarely raw bytes ("raw").
 func GenWrapperBytes(rt *rapid.T, d Dom) (msg []byte, kind string) {
-	switch k := rapid.IntRange(0, 19).Draw(rt, "wire_kind"); {
-	case k == 0:
+	k := rapid.IntRange(0, 19).Draw(rt, "wire_kind")
+	if k == 19 {
 		return rapid.SliceOfN(rapid.Byte(), 0, 64).Draw(rt, "raw"), "raw"
-	case k <= 4:
-		b, err := proto.Marshal(GenWrapper(rt, d))
-		if err != nil {
-			return nil, "raw"
-		}
-		return Mutate(rt, "mut", b), "mutated"
-	default:
-		b, err := proto.Marshal(GenWrapper(rt, d))
-		if err != nil {
-			return nil, "raw"
-		}
-		return b, "structured"
 	}
+	b, err := proto.Marshal(NewG(rt, d).Wrapper())
+	if err != nil {
+		return nil, "raw"
+	}
+	if k >= 15 {
+		return Mutate(rt, "mut", b), "mutated"
+	}
+	return b, "structured"
 }
